@@ -284,9 +284,68 @@ def show(template):
     return '.'.join('?' if t is None else (R.KINDS[t] if i == 0 else str(t)) for i, t in enumerate(template))
 
 
+# ------------------------------------------------------------------ host-composed contexts and deeper documents
+def _custom_contexts():
+    """[(label, context, {name: value the nearest-layer rule dictates})]: MultiContext / LinkedContext built over children of
+    the standard context, with the same name bound at different depths in different members"""
+    from yaql.language import contexts
+    std = yq.ROOT
+    a_parent = std.create_child_context()
+    a_parent['x'] = 'a-parent'
+    a_parent['y'] = 'a-parent-y'
+    a = a_parent.create_child_context()
+    a['z'] = 'a-own'
+    b = std.create_child_context()
+    b['x'] = 'b-own'
+    multi = contexts.MultiContext([a, b])                         # layer 1: a, b own stores; layer 2: a_parent
+    linked_target = std.create_child_context()
+    linked_target['x'] = 'linked-own'
+    lparent = std.create_child_context()
+    lparent['x'] = 'lparent'
+    lparent['w'] = 'lparent-w'
+    linked = contexts.LinkedContext(lparent, linked_target)
+    return [('multi', multi, {'x': 'b-own', 'y': 'a-parent-y', 'z': 'a-own', 'w': None}),
+            ('linked', linked, {'x': 'linked-own', 'y': None, 'z': None, 'w': 'lparent-w'})]
+
+
+CUSTOM_TEXTS = ['$%s', '[1].select($%s).first()', 'let(q => 1) -> $%s', 'def(f, $%s) -> let(%s => 0) -> f()', '[$%s, 2].where(true).first()']
+CUSTOM = None
+NESTED_DOCS = [({'g': [[{'a': 1}, {'a': 2}], [{'a': 3}], []]}, '$.g.a', [[1, 2], [3], []]),
+               ({'g': [[{'a': 1}], [{'a': 2}]]}, '$.g.select($.a)', [[1], [2]]),
+               ({'g': [{'a': [1, 2]}, {'a': []}]}, '$.g.a', [[1, 2], []]),
+               ([[{'a': {'b': 1}}], []], '$.a', [[{'b': 1}], []])]
+CBOX = [(i,) for i in range(8)]
+
+
+def custom_context(c: int, t: int, n: int) -> bool:
+    """
+    pre: 0 <= c < 2 and 0 <= t < len(CUSTOM_TEXTS) and 0 <= n < 4
+    post: _
+    """
+    global CUSTOM
+    ci, ti, ni = CBOX[c][0], CBOX[t][0], CBOX[n][0]
+    with H.NoTracing():
+        if CUSTOM is None:
+            CUSTOM = _custom_contexts()
+        label, ctx, expect = CUSTOM[ci]
+        name = 'xyzw'[ni]
+        text = CUSTOM_TEXTS[ti].replace('%s', name)
+        try:
+            got = ('ok', ENG(text).evaluate(data=7, context=ctx.create_child_context()))
+        except Exception as e:
+            got = ('err', type(e).__name__)
+        ok = got == ('ok', expect[name])
+        for doc, dtext, want in NESTED_DOCS:
+            ok = ok and ENG(dtext).evaluate(data=doc, context=ctx.create_child_context()) == want
+    return H.done(ok)
+
+
 def conditions(tier, seed):
     t = 150 if tier == 'quick' else 600
-    out = []
+    out = [{'name': 'custom_context', 'func': 'custom_context', 'timeout': t,
+            'bounds': 'variables bound at different depths in the members of a MultiContext / behind a LinkedContext, read through 5 '
+                      'expression shapes (plain, lambda, let, closure, where); member projection over documents nested two lists deep '
+                      '(selectors; each path concrete)'}]
     seen = set()
     for sh in shard_list(tier, seed):
         name = 'shard[d%d %s %s]' % (sh['depth'], sh['doc'], show(sh['template']))
@@ -344,6 +403,11 @@ def finding_key(ast):
 
 def replay(cond, args):
     p = cond.get('param') or {}
+    if cond['func'] == 'custom_context':
+        ok = custom_context(**args)
+        return {'reproduced': not ok, 'key': 'C04/custom-context',
+                'what': 'variable lookup through a %s context (expression %r, name %s) or member projection over a nested document '
+                        'differs from the language reference' % (['MultiContext', 'LinkedContext'][args['c']], CUSTOM_TEXTS[args['t']], 'xyzw'[args['n']])}
     ast = R.decode(fill_template(list(p.get('template', [None, None])), list(args['code'])), p.get('depth', 2))
     data = R.DOCS[p.get('doc', 'dict')][1](args['i1'], args['i2'], args['i3'])
     ok, text, got, exp = compare(ast, data)
